@@ -167,6 +167,7 @@ def ensure_coq(report):
     with Lock(".build.lock"):
         t0 = time.time()
         tab = os.path.join(COQ, "Generated", "Tables.v")
+        os.makedirs(os.path.dirname(tab), exist_ok=True)
         try:
             text = gen_tables.generate(REPO)
             report["tables_error"] = None
